@@ -509,6 +509,62 @@ func (s *pyrSess) idleEpisode(p *pyrVer) {
 	s.checkPyramid(p)
 }
 
+// concurrentOctantsEpisode: the eight blocks beneath one level-1 block are written by eight simultaneous
+// requests (each a single octant of the parent, so each mutation reads the stored parent block, fills in its own
+// octant and writes it back); after all are acknowledged and the volume is idle the pyramid must hold all eight.
+func (s *pyrSess) concurrentOctantsEpisode(p *pyrVer) {
+	px, py, pz := c14Lo/2+s.r.Intn(c14NB/2), c14Lo/2+s.r.Intn(c14NB/2), c14Lo/2+s.r.Intn(c14NB/2)
+	type wr struct {
+		bc   [3]int
+		blk  []uint64
+		path string
+		resp Resp
+	}
+	var ws []*wr
+	for o := 0; o < 8; o++ {
+		bc := [3]int{2*px + o%2, 2*py + (o/2)%2, 2*pz + o/4}
+		blk := make([]uint64, c14B*c14B*c14B)
+		sv := s.nextSV
+		s.nextSV++
+		for i := range blk {
+			blk[i] = sv
+			if i%5 == 0 {
+				blk[i] = sv + 100000
+			}
+		}
+		ws = append(ws, &wr{bc: bc, blk: blk, path: fmt.Sprintf("node/%s/lm/raw/0_1_2/%d_%d_%d/%d_%d_%d?mutate=true", p.uuid, c14B, c14B, c14B, bc[0]*c14B, bc[1]*c14B, bc[2]*c14B)})
+	}
+	var wg sync.WaitGroup
+	start := make(chan struct{})
+	for _, w := range ws {
+		wg.Add(1)
+		go func(w *wr) {
+			defer wg.Done()
+			<-start
+			w.resp = Post(w.path, u64le(w.blk))
+		}(w)
+	}
+	close(start)
+	wg.Wait()
+	s.log("eight simultaneous POST raw ?mutate=true, one per block beneath level-1 block (%d,%d,%d), at v%d", px, py, pz, p.v)
+	for _, w := range ws {
+		if !w.resp.OK() {
+			s.log("  block %v -> %s (not applied)", w.bc, w.resp)
+			continue
+		}
+		ox, oy, oz := (w.bc[0]-c14Lo)*c14B, (w.bc[1]-c14Lo)*c14B, (w.bc[2]-c14Lo)*c14B
+		for z := 0; z < c14B; z++ {
+			for y := 0; y < c14B; y++ {
+				copy(p.vox[((oz+z)*c14N+oy+y)*c14N+ox:], w.blk[(z*c14B+y)*c14B:(z*c14B+y)*c14B+c14B])
+			}
+		}
+	}
+	s.c.Eval("concurrent octants", true)
+	s.c.Count("concurrent-octants-episode")
+	s.settle()
+	s.checkPyramid(p)
+}
+
 func (s *pyrSess) splitSV(p *pyrVer) bool {
 	seen := map[uint64]int{}
 	for _, sv := range p.vox {
@@ -611,6 +667,7 @@ func runC14(c *Ctx) {
 				s.bodySplitEpisode(s.vers[0])
 			}
 			s.idleEpisode(s.vers[0])
+			s.concurrentOctantsEpisode(s.vers[0])
 			for i := 0; i < steps; i++ {
 				o := s.open()
 				if len(o) == 0 || s.wedged {
